@@ -43,7 +43,14 @@ pub fn take_panic_message() -> String {
 pub fn guard<T>(f: impl FnOnce() -> T) -> Result<T, String> {
 	match catch_unwind(AssertUnwindSafe(f)) {
 		Ok(v) => Ok(v),
-		Err(_) => Err(take_panic_message()),
+		Err(_) => {
+			let msg = take_panic_message();
+			if msg.starts_with("model:") || msg.starts_with("bridge:") || msg.starts_with("harness:") {
+				// a bug in the oracle or the bridge, not in the code under test: never a violation
+				panic!("{msg}");
+			}
+			Err(msg)
+		},
 	}
 }
 
